@@ -475,6 +475,11 @@ func (x *Exec) applyContract(fr *Frame, st *State, sp *FuncSpec, sig *types.Sign
 			}
 		}
 	}
+	// probe taken before the call (see the after-call vacuity probe below)
+	var preProbe *Oblig
+	if !x.dry && len(sp.Ensures) > 0 {
+		preProbe = &Oblig{Name: x.unitName + "/vacuity[before-call]", Kind: "vacuity", Unit: x.unitName, Goal: x.C.Not(st.PC), NAssume: len(x.assumes), Self: -1}
+	}
 	// requires
 	for _, r := range sp.Requires {
 		t := x.evalBool(r.E, env)
@@ -482,8 +487,19 @@ func (x *Exec) applyContract(fr *Frame, st *State, sp *FuncSpec, sig *types.Sign
 	}
 	// call-site assertions of the calling unit (callpre)
 	if fr != nil && fr.spec != nil && fr.spec.CallPre != nil {
-		name := sp.Name
-		if cl, ok := fr.spec.CallPre[name]; ok {
+		// the callee may be named by its function name, T.name, or (*T).name / (T).name
+		var cl []Clause
+		for _, name := range []string{sp.Name, calleeLabel(sp), "(" + sp.Recv + ")." + sp.Name} {
+			if c2, ok := fr.spec.CallPre[name]; ok {
+				cl = c2
+				if x.callpreUsed == nil {
+					x.callpreUsed = map[string]bool{}
+				}
+				x.callpreUsed[fr.spec.Key()+"|"+name] = true
+				break
+			}
+		}
+		if cl != nil {
 			cenv := x.frameEnv(fr, pre)
 			for k, v := range env.Vars {
 				cenv.Vars[k] = v
@@ -519,7 +535,19 @@ func (x *Exec) applyContract(fr *Frame, st *State, sp *FuncSpec, sig *types.Sign
 		}
 		x.assume(st, t)
 	}
-	_ = c
+	// vacuity probe: the callee's postconditions, assumed here, must not contradict what is known at the call
+	// site (a contradictory or mis-stated callee contract would make everything after the call provable)
+	if !x.dry && len(sp.Ensures) > 0 && !isFalse(st.PC) {
+		name := fmt.Sprintf("%s/vacuity[after-call %s@%s]", x.unitName, calleeLabel(sp), site)
+		if n := x.names[name]; n > 0 {
+			x.names[name] = n + 1
+			name = fmt.Sprintf("%s~%d", name, n+1)
+		} else {
+			x.names[name] = 1
+		}
+		x.obligs = append(x.obligs, &Oblig{Name: name, Kind: "vacuity", Unit: x.unitName, Goal: c.Not(st.PC), Pre: preProbe,
+			NAssume: len(x.assumes), Self: -1, Src: "the state after assuming the callee's postconditions is satisfiable (expected: sat)"})
+	}
 	return results
 }
 
